@@ -13,7 +13,7 @@ struct LrState {
     std::vector<uint64_t> apply_order;   // bits in the order of their first application
     int mods_in_progress = 0;
     long flips_seen = 0;                  // number of modifies that completed their first application
-    bool lbl_read_during_modify = false, lbl_held_across_flip = false, lbl_writer_waited = false;
+    bool lbl_read_during_modify = false, lbl_held_across_flip = false, lbl_writer_waited = false; int lbl_crowd = 0;
 };
 LrState* LS = nullptr;
 
@@ -24,6 +24,10 @@ bool mask_in_chain(uint64_t m, const std::vector<uint64_t>& order, uint64_t init
     for (uint64_t b : order) { acc |= b; if (m == acc) return true; }
     return false;
 }
+
+// crowd sizes for the "any number of readers" clause: together with the reader's own handle they reach the wrap-around points of
+// 8- and 16-bit counters (256, 512, 65536) and their neighbours
+static const int kCrowd[8] = {0, 3, 254, 255, 256, 511, 65535, 65536};
 
 template<class M>
 vh::Outcome run_c03_t(const vh::Case& c, bool with_faults) {
@@ -76,6 +80,15 @@ vh::Outcome run_c03_t(const vh::Case& c, bool with_faults) {
                         uint64_t need = 0;       // bits whose modify returned before this call
                         for (auto& m : st.mods) if (m.ret >= 0 && !(m.threw && m.threw_at == 1)) need |= m.bit;
                         {
+                            // a crowd of further shared handles held by this reader for the whole read (taken as one indivisible chunk)
+                            std::vector<typename LR::shared_handle> crowd;
+                            int ncrowd = (c.cfg.size() > 1 && (op.b & 4)) ? kCrowd[c.cfg[1] % 8] : 0;
+                            if (ncrowd > 0) {
+                                vrt::BulkScope bulk;
+                                crowd.reserve((size_t)ncrowd);
+                                for (int q = 0; q < ncrowd; ++q) crowd.push_back(lr.lock_shared());
+                                st.lbl_crowd = std::max(st.lbl_crowd, ncrowd);
+                            }
                             auto h = (op.a % 4 == 0) ? lr.lock_shared()
                                    : (op.a % 4 == 1) ? lr.try_lock_shared()
                                    : (op.a % 4 == 2) ? lr.try_lock_shared_for(std::chrono::milliseconds(5))
@@ -87,6 +100,10 @@ vh::Outcome run_c03_t(const vh::Case& c, bool with_faults) {
                             r.v2 = h->read();
                             if (r.v1 != r.v2) vrt::fail("unstable-read", "value changed while an lr_guarded shared handle was held");
                             if (st.flips_seen != flips0) st.lbl_held_across_flip = true;
+                            if (ncrowd > 0) {
+                                h.reset();                                   // own handle first, then the crowd (indivisible again)
+                                vrt::BulkScope bulk; crowd.clear();
+                            }
                         }
                         r.rel = vrt::now_step();
                         // currency
@@ -131,6 +148,7 @@ vh::Outcome run_c03_t(const vh::Case& c, bool with_faults) {
     LS = nullptr;
     if (st.lbl_read_during_modify) out.labels.push_back("read-during-modify");
     if (st.lbl_held_across_flip) out.labels.push_back("held-across-flip");
+    if (st.lbl_crowd) out.labels.push_back("crowd=" + std::to_string(st.lbl_crowd));
     int active = 0; for (auto& f : c.fibers) if (!f.empty()) active++;
     out.labels.push_back("fibers=" + std::to_string(active));
     if (out.res.faults_fired) out.labels.push_back("fault-fired");
@@ -324,12 +342,16 @@ vh::GenSpec c03_spec(bool thorough) {
     g.sched_len = thorough ? 192 : 128; g.aux_len = 16; g.allow_weak = false;
     return g;
 }
+vh::GenSpec c03c_spec(bool thorough) { vh::GenSpec g = c03_spec(thorough); g.cfg_max = {4, 8}; g.bmax = 8; g.max_ops = 3; return g; }
 vh::GenSpec c03w_spec(bool thorough) { vh::GenSpec g = c03_spec(thorough); g.allow_weak = true; return g; }
 vh::GenSpec c20lr_spec(bool thorough) { vh::GenSpec g = c03_spec(thorough); g.fault_max = 12; g.fault_mask = vrt::F_FUNCTOR; return g; }
 
 vh::Register r_c03("C03", c03_spec(false), c03_spec(true), [](const vh::Case& c) { return run_c03(c, false); },
                    "generated lr_guarded clients (4 fiber slots of modify/read ops) x generated schedule; non-trivial = a shared acquisition was "
                    "called while a modify was in progress, or a shared handle was held across a writer's side flip; distinct = distinct (program, executed interleaving) hash");
+vh::Register r_c03c("C03c", c03c_spec(false), c03c_spec(true), [](const vh::Case& c) { return run_c03(c, false); },
+                    "as C03, and half of the reads additionally hold a crowd of 3 / 254 / 255 / 256 / 511 / 65535 / 65536 further shared handles (\"any number of readers\"): "
+                    "with the reader's own handle the population reaches the wrap-around points of 8- and 16-bit counters; the crowd is taken and released as one indivisible chunk");
 vh::Register r_c03w("C03w", c03w_spec(false), c03w_spec(true), [](const vh::Case& c) { return run_c03(c, false); },
                     "as C03 with weak-memory mode enabled on half of the cases");
 vh::Register r_c20lr("C20lr", c20lr_spec(false), c20lr_spec(true), [](const vh::Case& c) { return run_c03(c, true); },
